@@ -79,6 +79,11 @@ theorem encodeAll_bytes (ps : List Pdu) (hw : ∀ p ∈ ps, PduWF p) : Bytes (en
     simp only [encodeAll, List.flatMap_cons]
     exact bytes_append (encode_bytes_len p (hw p (by simp))).1 (ih (fun q hq => hw q (by simp [hq])))
 
+theorem seenOf_append (a b : List Pdu) : seenOf (a ++ b) = seenOf a + seenOf b := by
+  induction a with
+  | nil => simp [seenOf]
+  | cons p ps ih => simp only [List.cons_append, seenOf, ih]; omega
+
 /-! ## one script slot against its specification slot -/
 
 def Slot.src (x : Slot) : Src := ⟨x.cache, x.sid⟩
@@ -87,6 +92,7 @@ structure Clean (S : List Vrp) (x : Slot) (y : SSlot) (cl : Sess) : Prop where
   len : cl.buf.length = (split y.pdus y.delivered).2.1
   buf : cl.buf ++ x.rest = encodeAll (y.pdus.drop (split y.pdus y.delivered).1.length)
   link : Link cl S (specFold cl.src (split y.pdus y.delivered).1)
+  rx : cl.rx = seenOf (split y.pdus y.delivered).1
 
 structure Live (S : List Vrp) (x : Slot) (y : SSlot) (cl : Sess) : Prop where
   src : cl.src = x.src
@@ -170,7 +176,7 @@ theorem start_step {S : List Vrp} {x : Slot} {y : SSlot} {t : Table} (hi : Table
       = ([], 0, false) := by
     show split y.pdus y.delivered = _
     rw [hdel, split_zero]
-  refine ⟨by rw [hs]; rfl, ?_, ?_⟩
+  refine ⟨by rw [hs]; rfl, ?_, ?_, ?_⟩
   · rw [hs]
     show [] ++ x.rest = encodeAll (y.pdus.drop 0)
     rw [h.rest, hdel, List.drop_zero, List.drop_zero, List.nil_append]
@@ -180,14 +186,15 @@ theorem start_step {S : List Vrp} {x : Slot} {y : SSlot} {t : Table} (hi : Table
     simp only [specFold, List.foldl_nil, List.not_mem_nil, false_iff, not_and]
     intro hv hc
     exact hgone v hv hc
+  · rw [hs]; rfl
 
 theorem coreEq_soft (cl : Sess) (t : Table) : (soft cl t).2 = t ∧ CoreEq cl (soft cl t).1 := by
   unfold soft
   split
-  · exact ⟨rfl, ⟨rfl, rfl, rfl, rfl, rfl, rfl⟩⟩
+  · exact ⟨rfl, ⟨rfl, rfl, rfl, rfl, rfl, rfl, rfl⟩⟩
   · split
-    · exact ⟨rfl, ⟨rfl, rfl, rfl, rfl, rfl, rfl⟩⟩
-    · exact ⟨rfl, ⟨rfl, rfl, rfl, rfl, rfl, rfl⟩⟩
+    · exact ⟨rfl, ⟨rfl, rfl, rfl, rfl, rfl, rfl, rfl⟩⟩
+    · exact ⟨rfl, ⟨rfl, rfl, rfl, rfl, rfl, rfl, rfl⟩⟩
 
 theorem Live.of_coreEq {S : List Vrp} {x : Slot} {y : SSlot} {cl cl' : Sess} (h : Live S x y cl)
     (e : CoreEq cl cl') : Live S x y cl' :=
@@ -195,7 +202,8 @@ theorem Live.of_coreEq {S : List Vrp} {x : Slot} {y : SSlot} {cl cl' : Sess} (h 
    by rw [e.done]; exact h.closed, by rw [e.done]; exact h.gone, by rw [e.done]; exact h.why,
    fun hd hcl =>
      have C := h.clean (by rw [← e.done]; exact hd) hcl
-     ⟨by rw [e.buf]; exact C.len, by rw [e.buf]; exact C.buf, by rw [e.src]; exact C.link.of_coreEq e⟩⟩
+     ⟨by rw [e.buf]; exact C.len, by rw [e.buf]; exact C.buf, by rw [e.src]; exact C.link.of_coreEq e,
+      by rw [e.rx]; exact C.rx⟩⟩
 
 theorem soft_step {S : List Vrp} {x : Slot} {y : SSlot} {t : Table} (hi : TableInv t) (hr : R t S)
     (h : SlotRel S x y) (cl : Sess) (hx : x.client = some cl) :
@@ -209,7 +217,27 @@ theorem soft_step {S : List Vrp} {x : Slot} {y : SSlot} {t : Table} (hi : TableI
   subst hc
   have L := (h.live cl hx).of_coreEq he
   exact ⟨L.src, L.ok, L.closed, L.gone, L.why, fun hd hcl =>
-    have C := L.clean hd hcl; ⟨C.len, C.buf, C.link⟩⟩
+    have C := L.clean hd hcl; ⟨C.len, C.buf, C.link, C.rx⟩⟩
+
+theorem coreEq_failWrites (cl : Sess) (t : Table) : (failWrites cl t).2 = t ∧ CoreEq cl (failWrites cl t).1 := by
+  unfold failWrites
+  split
+  · exact ⟨rfl, ⟨rfl, rfl, rfl, rfl, rfl, rfl, rfl⟩⟩
+  · exact ⟨rfl, ⟨rfl, rfl, rfl, rfl, rfl, rfl, rfl⟩⟩
+
+theorem wfail_step {S : List Vrp} {x : Slot} {y : SSlot} {t : Table} (hi : TableInv t) (hr : R t S)
+    (h : SlotRel S x y) (cl : Sess) (hx : x.client = some cl) :
+    SlotStep S x { x with client := some (failWrites cl t).1 } y (failWrites cl t).2 S := by
+  obtain ⟨ht, he⟩ := coreEq_failWrites cl t
+  rw [ht]
+  refine ⟨hi, hr, Frame.refl _ _, ?_, rfl, rfl, fun _ => rfl, fun v hv => Or.inl hv⟩
+  refine ⟨h.sid, h.cache, h.wf, h.rest, h.le, (by simp [h.started, hx]), (fun hc => by cases hc), ?_⟩
+  intro cl' hc
+  simp only [Option.some.injEq] at hc
+  subst hc
+  have L := (h.live cl hx).of_coreEq he
+  exact ⟨L.src, L.ok, L.closed, L.gone, L.why, fun hd hcl =>
+    have C := L.clean hd hcl; ⟨C.len, C.buf, C.link, C.rx⟩⟩
 
 theorem close_step {S : List Vrp} {x : Slot} {y : SSlot} {t : Table} (hi : TableInv t) (hr : R t S)
     (h : SlotRel S x y) (cl : Sess) (hx : x.client = some cl) :
@@ -331,19 +359,19 @@ theorem send_step {S : List Vrp} {x : Slot} {y : SSlot} {t : Table} (hi : TableI
           = (split y.pdus y.delivered).2.1 + (x.rest.take n).length := by
         simp only [List.length_append, C.len]
       have hl0 : Link { cl with buf := cl.buf ++ x.rest.take n } S (specFold cl.src (split y.pdus y.delivered).1) :=
-        C.link.of_coreEq ⟨rfl, rfl, rfl, rfl, rfl, rfl⟩ |> fun h => ⟨h.inReset, h.pending, h.installed, h.serial, h.vwf⟩
+        C.link.of_coreEq ⟨rfl, rfl, rfl, rfl, rfl, rfl, rfl⟩ |> fun h => ⟨h.inReset, h.pending, h.installed, h.serial, h.vwf⟩
       have hbuf0 : ({ cl with buf := cl.buf ++ x.rest.take n } : Sess).buf ++ x.rest.drop n
           = encodeAll (y.pdus.drop (split y.pdus y.delivered).1.length) := by
         show (cl.buf ++ x.rest.take n) ++ x.rest.drop n = _
         rw [List.append_assoc, List.take_append_drop]; exact C.buf
       have hwf' : ∀ p ∈ y.pdus.drop (split y.pdus y.delivered).1.length, PduWF p :=
         fun p hp => h.wf p (List.mem_of_mem_drop hp)
-      obtain ⟨S', hi', hr', hfr, hsrc, hdone, hlen, hbuf, hlink⟩ :=
+      obtain ⟨S', hi', hr', hfr, hsrc, hdone, hlen, hbuf, hlink, hrx⟩ :=
         pump_aligned (y.pdus.drop (split y.pdus y.delivered).1.length)
           { cl with buf := cl.buf ++ x.rest.take n } t S (specFold cl.src (split y.pdus y.delivered).1)
           (x.rest.drop n) fuel hi hr hl0 hd' hbuf0 hwf' (by rw [hfu]; exact Nat.le_refl _)
           (by rw [hlen0]; rw [hext] at hclean'; exact hclean')
-      rw [hlen0] at hlen hbuf hlink
+      rw [hlen0] at hlen hbuf hlink hrx
       have hsrc' : (pump fuel { cl with buf := cl.buf ++ x.rest.take n } t).1.src
           = x.src := hsrc.trans L.src
       refine ⟨S', hi', hr', (by rw [show ({ cl with buf := cl.buf ++ x.rest.take n } : Sess).src = x.src from L.src] at hfr; exact hfr),
@@ -361,7 +389,7 @@ theorem send_step {S : List Vrp} {x : Slot} {y : SSlot} {t : Table} (hi : TableI
         refine ⟨hsrc', ⟨hb', hlink.vwf⟩, (fun hc => by rw [hnc] at hc; cases hc),
           (fun hdn => by rw [hdone] at hdn; cases hdn), (fun hdn => by rw [hdone] at hdn; cases hdn), ?_⟩
         intro _ _
-        refine ⟨?_, ?_, ?_⟩
+        refine ⟨?_, ?_, ?_, ?_⟩
         · show _ = (split y.pdus (min (y.delivered + n) (total y.pdus))).2.1
           rw [hext]; exact hlen
         · show _ ++ x.rest.drop n = encodeAll (y.pdus.drop (split y.pdus (min (y.delivered + n) (total y.pdus))).1.length)
@@ -370,6 +398,10 @@ theorem send_step {S : List Vrp} {x : Slot} {y : SSlot} {t : Table} (hi : TableI
           rw [hext, hsrc]
           simp only [specFold, List.foldl_append] at hlink ⊢
           exact hlink
+        · show _ = seenOf (split y.pdus (min (y.delivered + n) (total y.pdus))).1
+          rw [hext, hrx]
+          show cl.rx + _ = _
+          rw [C.rx, seenOf_append]
       · intro v hv
         rcases hfr.owned v hv with h' | h'
         · exact Or.inl h'
